@@ -68,8 +68,8 @@ def run(ctx):
                                 ('append', ['self', 'other'], 'serialize::OutputBuffer::append(self.buf, other)')):
             rows = P.table(ctx, SB + nm, params)
             site = ctx.site(SB + nm)
-            open_ = [x for x in rows if x.conds == [('!self.sealed', True)]]
-            shut = [x for x in rows if x.conds == [('!self.sealed', False)]]
+            open_ = [x for x in rows if x.conds == [('self.sealed', False)]]
+            shut = [x for x in rows if x.conds == [('self.sealed', True)]]
             r.check('%s:gated' % nm, len(rows) == 2 and len(open_) == 1 and len(shut) == 1 and open_[0].effects == [eff] and shut[0].effects == [], site,
                     built=[x.row() for x in rows], expected={'!sealed': [eff], 'sealed': []}, why='a producer that ignores the seal could write after the close point')
         # sealed only ever assigned true
